@@ -8,6 +8,7 @@
     SpoolTrace.tla validates the traces and evaluates the predicates.
 """
 import json
+from concurrent.futures import ThreadPoolExecutor
 
 import vlib
 from checks import c02
@@ -15,7 +16,7 @@ from checks import c02
 CFG = """SPECIFICATION Spec
 CONSTANTS
   Rcpts = {"r1", "r2"}
-  HdrShapes = {"plain", "folded", "dup", "8bit", "long", "huge", "emptyval"}
+  HdrShapes = {"plain", "folded", "dup", "8bit", "long", "huge", "emptyval", "envlike"}
   BodyShapes = {"small", "empty", "binary", "large", "faulty"}
   Senders = {"null", "ascii", "idn", "idndom", "quoted"}
   Auths = {"none", "auth-trace", "auth-notrace"}
@@ -26,7 +27,7 @@ CONSTANTS
 %(tail)s
 """
 DEVS = ["DropOverrideAtStart", "DropFlagOnReload", "SerializeConn", "TruncateHugeHeader", "AllRcptsOnRetry",
-        "BounceRewritesEnvelope", "SwallowCopyError"]
+        "BounceRewritesEnvelope", "SwallowCopyError", "BodyFromSource", "EnvelopeFromHeader"]
 
 
 def cfg(steps, restarts, devs=(), gen=False, tail="VIEW View\nINVARIANT NoViolation\n"):
@@ -37,19 +38,29 @@ def cfg(steps, restarts, devs=(), gen=False, tail="VIEW View\nINVARIANT NoViolat
 def run(ctx, replay):
     thorough = ctx.tier == "thorough"
     if not replay:
-        r = ctx.tlc_expect_ok("Spool", None, name="mc", workers=8, timeout=1800,
+        # the behaviour generation, the harness build and the deviation runs go on beside the exhaustive run
+        pool = ThreadPoolExecutor(max_workers=2)
+        build_future = pool.submit(ctx.build_harness, "queuecheck")
+        gen_future = pool.submit(ctx.tlc, "Spool", None, name="sim", workers=1, timeout=900, heap="2g",
+                                 simulate=2500 if thorough else 260, depth=12,
+                                 cfg_text=cfg(5, 2, gen=True, tail="CHECK_DEADLOCK FALSE\n"))
+        dev_futures = [(dev, pool.submit(ctx.tlc, "Spool", None, name="asis-" + dev, workers=1, timeout=300,
+                                         heap="2g",
+                                         cfg_text=cfg(3, 1, devs=[dev]))) for dev in DEVS]
+        r = ctx.tlc_expect_ok("Spool", None, name="mc", workers=6 if thorough else 4, timeout=1800,
+                              heap="8g" if thorough else "4g",
                               cfg_text=cfg(5 if thorough else 4, 2))
         ctx.cov["states"], ctx.cov["transitions"], ctx.cov["model_depth"] = r["distinct"], r["generated"], r["depth"]
         ctx.log("TLC exhaustive: %d distinct states, %d transitions, %.1fs" % (r["distinct"], r["generated"], r["wall"]))
         caught = []
-        for dev in DEVS:
-            ra = ctx.tlc("Spool", None, name="asis-" + dev, workers=4, timeout=300, cfg_text=cfg(3, 1, devs=[dev]))
+        for dev, fut in dev_futures:
+            ra = fut.result()
             if ra["invariant"] != "NoViolation":
                 raise vlib.Infra("deviation %s is no longer caught by the model invariant" % dev)
             caught.append(dev)
         ctx.cov["deviations_caught_by_model"] = caught
-        g = ctx.tlc("Spool", None, name="sim", workers=1, timeout=900, simulate=2500 if thorough else 260,
-                    depth=12, cfg_text=cfg(5, 2, gen=True, tail="CHECK_DEADLOCK FALSE\n"))
+        g = gen_future.result()
+        pool.shutdown()
         if not g["ok"]:
             raise vlib.Infra("behaviour generation failed: %s %s" % (g["invariant"], g["error"]))
         behs, seen = [], set()
@@ -65,6 +76,19 @@ def run(ctx, replay):
         for k, b in enumerate(behs):    # harness-only dimension: recipients that differ only by letter case
             if k % 3 == 1:
                 b["caseVar"] = True
+            # harness-only as well: recipients in an internationalized domain / with non-ASCII local parts
+            # (SMTPUTF8 messages), and a message whose sender was rewritten before it reached the queue
+            elif k % 6 == 2:
+                b["rcptAlpha"] = "uni" if b["msg"]["utf8"] else "idn"
+            if k % 2 == 1:
+                b["origFrom"] = True
+        # CrashRestart (an abrupt stop before the first attempt) is enabled right after every Accept and
+        # changes nothing the later steps depend on, so inserting it into a generated behaviour gives another
+        # behaviour of the model; the simulation picks it rarely (one successor among ten), a quarter get it
+        for k, b in enumerate(behs):
+            h = b["hist"]
+            if k % 4 == 2 and len(h) > 1 and h[0]["a"] == "Accept" and h[1]["a"] != "Crash":
+                b["hist"] = [h[0], {"a": "Crash"}] + h[1:]
     else:
         obj = json.load(open(replay))
         if "behaviour" not in obj:      # a crash run (DamagedMessageHanded)
@@ -73,7 +97,7 @@ def run(ctx, replay):
         behs = [obj["behaviour"]]
         behs[0]["id"] = 1
     ctx.log("%d behaviours" % len(behs))
-    binary = ctx.build_harness("queuecheck")
+    binary = build_future.result() if not replay else ctx.build_harness("queuecheck")
     events = ctx.run_shards(binary, behs, test="TestPreserve", name="preserve")
     by_id = {b["id"]: b for b in behs}
     tcfg = cfg(40, 40, tail="CHECK_DEADLOCK FALSE\nPOSTCONDITION Post\n").replace("SPECIFICATION Spec", "SPECIFICATION TSpec")
@@ -107,7 +131,7 @@ def run(ctx, replay):
         # a stop while the message is being stored must not make the queue hand over a damaged message
         # (QueueDisk.tla; crash machinery of C02, reporting only DamagedMessageHanded)
         c02.run_crash(ctx, None, "C10", lambda v: v == "DamagedMessageHanded", nscen=60 if thorough else 8,
-                      sub="crash")
+                      sub="crash", devs=("MetaBeforeSync", "MetaBeforeBody"))
     ctx.assumptions += [
         "header/body concretisations of the shape classes are fixed per class (random tag per behaviour); "
         "byte equality is computed by the harness target and logged as the shape name or 'changed(...)'",
